@@ -1,7 +1,7 @@
 from typing import TypeVar
 
 from ...model_tools.definitions import InputShape, OutputShape
-from ...provider.essential import Mediator
+from ...provider.essential import CannotProvide, Mediator
 from ...provider.methods_provider import MethodsProvider, method_handler
 from ..model.crown_definitions import (
     BranchInpCrown,
@@ -11,6 +11,7 @@ from ..model.crown_definitions import (
     InputNameLayoutRequest,
     LeafInpCrown,
     LeafOutCrown,
+    OutListCrown,
     OutputNameLayout,
     OutputNameLayoutRequest,
     Sieve,
@@ -92,6 +93,12 @@ class BuiltinNameLayoutProvider(MethodsProvider):
                 shape=request.shape,
                 path_to_sieve=path_to_sieve,
                 as_list=self._structure_maker.empty_as_list_out(mediator, request),
+            )
+        if extra_move is not None and isinstance(crown, OutListCrown):
+            raise CannotProvide(
+                "Can not use extra_out with list mapping",
+                is_terminal=True,
+                is_demonstrative=True,
             )
         return OutputNameLayout(crown=crown, extra_move=extra_move)
 
